@@ -77,8 +77,8 @@ def gen_plan(rng, tier, run):
         plan["opts"].append("-x")
     recipes = [pelgen.gen_pel(rng, max_sections=3) for _ in range(n)]
     names = common.make_names(rng, recipes)
-    if n >= 2 and rng.random() < 0.2:
-        names[1] = names[0] + rng.choice([".pel", ".1", ".bak"])      # one name is a prefix of another
+    if n >= 2 and rng.random() < 0.3:
+        names[1] = names[0] + rng.choice([".pel", ".1", ".bak", ".tmp", ".tmp", ".json.tmp", ".new", ".part", "~"])      # one name is a prefix of another
     long_name = mode == "json" and rng.random() < 0.06
     for i, (r, nm) in enumerate(zip(recipes, names)):
         f = {"name": nm + (ext if ext and rng.random() < 0.7 else ""), "recipe": r}
@@ -330,6 +330,14 @@ def execute(plan):
             bump("path_style:" + w.path_style)
         bump("process_model:fresh" if w.fresh_per_run else "process_model:shared")
         ref0, ref0_snap = run_once(w, plan, originals, None, reference=True)
+        # no fault, no --clean: every input must still be there, byte for byte (also when the tool gave up)
+        gone0 = [n for n in originals if ("D/" + n) not in ref0_snap]
+        changed0 = [n for n in originals if ("D/" + n) in ref0_snap and ref0_snap["D/" + n][0] == "f" and w.read("D/" + n) != originals[n]]
+        if gone0 or changed0:
+            vio0 = {"class": "removed-without-clean", "key": "C12:%s:removed-without-clean" % plan["mode"],
+                    "detail": "inputs %s disappeared / %s were modified although --clean was not given and nothing failed: argv=%s exc=%s" % (
+                        gone0, changed0, ref0.argv, ref0.exc)}
+            return {"violations": [vio0], "stats": stats, "traces": [], "events": 0, "evals": 1, "digest": ref0.digest}
         if ref0.crashed or ref0.exc:
             raise HarnessError("reference execution did not complete: %s %s" % (ref0.exc, ref0.stderr[-500:]))
         ref_outputs = {}
